@@ -246,6 +246,7 @@ def removal_predicate_rules(ctx, rule='R4'):
     want = {'port': 'port', 'port_mask': 'port_mask', 'channel': 'channel', 'channel_mask': 'channel_mask', 'callback': 'cb'}
     sites = removal_sites(rm)
     ctx.need(sites is not None, 'remove_header_callback: removal idiom not recognised')
+    in_place_rule(ctx, rule)
     for key, keys in sites:
         for field, par in want.items():
             ok = keys.get(field) == par and par in params
@@ -347,7 +348,21 @@ def removal_sites(func):
                 out.append(('rebuild@%d' % len(out), g_eq_fields(facts, norm(gen.target), func)))
             else:
                 out.append(('rebuild@%d' % len(out), {}))                            # several filters: dropped if any fails - no conjunction holds
+    # snapshot / prune / swap:  tmp = list(self.cb); ... tmp.remove(x) ...; self.cb = tmp   - the same predicate, but not in place
+    for st in walk_own(func.node):
+        if isinstance(st, ast.Assign) and norm(st.targets[0]) == 'self.cb' and isinstance(st.value, ast.Name):
+            tmp = st.value.id
+            for node, call in g.find(lambda n, tmp=tmp: method_call(n, 'remove') and norm(n.func.value) == tmp):
+                out.append(('swap@%d' % len(out), g_eq_fields(g.facts_at(node), norm(call.args[0]), func)))
     return out or None
+
+
+def in_place_rule(ctx, rule):
+    """Registrations are added from any thread with self.cb.append: a removal edits the same list object (remove / slice assignment /
+    one-expression rebuild).  Pruning a copy taken earlier and assigning it back drops whatever was registered in between."""
+    rm = ctx.model.func(CF, '_IncomingPacketHandler.remove_header_callback')
+    swaps = [norm(st)[:50] for st in walk_own(rm.node) if isinstance(st, ast.Assign) and norm(st.targets[0]) == 'self.cb' and isinstance(st.value, ast.Name)]
+    ctx.inst(rule, rm, 'table-edited-in-place', not swaps, 'the registration list is replaced by a pruned copy made earlier in the call: %s' % swaps)
 
 
 def barrier(func, loop, call):
